@@ -40,7 +40,7 @@ func TestC12(t *testing.T) {
 		mc := NewMachine("C12", sch, column.Options{})
 		defer mc.Close()
 		defer mc.Guard(t)
-		cfg := TxnCfg{Prop: "C12", MaxSteps: 8, Rollback: true, FailInsert: true, Deletes: true, Inserts: true, Merges: true, KeyOps: true, Direct: true,
+		cfg := TxnCfg{Prop: "C12", MaxSteps: 8, Peeks: true, Rollback: true, FailInsert: true, Deletes: true, Inserts: true, Merges: true, KeyOps: true, Direct: true,
 			NoStoreOnDel: KFActive("f11-store-and-delete-same-txn"), NoOpAfterLenMerge: KFActive("f15-difflen-merge-reorder")}
 		freed := map[string]bool{} // keys that were deleted or re-keyed away at some point
 		interesting := false
@@ -279,7 +279,7 @@ func TestC12Interleaved(t *testing.T) {
 		mc := NewMachine("C12", sch, column.Options{})
 		defer mc.Close()
 		defer mc.Guard(t)
-		cfg := TxnCfg{Prop: "C12", MaxSteps: 6, Rollback: true, Deletes: true, Inserts: true, Merges: true, KeyOps: true,
+		cfg := TxnCfg{Prop: "C12", MaxSteps: 6, Peeks: true, Rollback: true, Deletes: true, Inserts: true, Merges: true, KeyOps: true,
 			NoStoreOnDel: KFActive("f11-store-and-delete-same-txn"), NoOpAfterLenMerge: KFActive("f15-difflen-merge-reorder")}
 		bSeq := 0
 		var bKeys []string
